@@ -162,6 +162,22 @@ impl Backend {
         self.update_document(url, &content, language_id).await
     }
 
+    /// Re-lint a document the server already tracks (after a dictionary or configuration
+    /// change), using the text the client last sent rather than whatever is on disk.
+    async fn refresh_document(&self, url: &Url) -> Result<()> {
+        let text = {
+            let doc_lock = self.doc_state.lock().await;
+            doc_lock
+                .get(url)
+                .map(|doc_state| doc_state.document.get_full_string())
+        };
+
+        match text {
+            Some(text) => self.update_document(url, &text, None).await,
+            None => Ok(()),
+        }
+    }
+
     async fn update_document(
         &self,
         url: &Url,
@@ -562,7 +578,7 @@ impl LanguageServer for Backend {
                     .await
                     .map_err(|err| error!("{err}"))
                     .err();
-                self.update_document_from_file(&file_url, None)
+                self.refresh_document(&file_url)
                     .await
                     .map_err(|err| error!("{err}"))
                     .err();
@@ -593,7 +609,7 @@ impl LanguageServer for Backend {
                     .await
                     .map_err(|err| error!("{err}"))
                     .err();
-                self.update_document_from_file(&file_url, None)
+                self.refresh_document(&file_url)
                     .await
                     .map_err(|err| error!("{err}"))
                     .err();
@@ -665,7 +681,7 @@ impl LanguageServer for Backend {
         };
 
         for url in urls {
-            self.update_document_from_file(&url, None)
+            self.refresh_document(&url)
                 .await
                 .map_err(|err| error!("{err}"))
                 .err();
